@@ -20,6 +20,9 @@ CHECKS["C03"] = ("model_checking", "E2", "explicit-state breadth-first search ov
 CHECKS["C04"] = ("exploration", "E1", "bounded exhaustive enumeration of mark placements over operand tuples; paired marked / stripped runs (non-interference oracle)",
   "Every operation-method case of the C01 universe (operands known, null, unknown, DynamicVal) x every placement of marks (root subsets of two marks per operand, one nested member marked), conversions and stdlib function calls x mark placements, and set constructors on marked members: the marked run and the run on deep-stripped inputs must agree on success/failure and on the unmarked result; promised marks must be on the result; no mark may be invented.",
   "trusted: deep strip via UnmarkDeep (itself covered by C19); bound: 3 distinct marks, <=1 nested marked member per operand", "§3 C04")
+CHECKS["C05"] = ("model_checking", "E2", "explicit-state breadth-first search over refinement-builder call histories with an analytic interval/prefix/length model in lock-step; exhaustive prefix x continuation enumeration",
+  "BFS over all builder call sequences to depth 4 (thorough 5) on 28 base values with an analytic model of the stated constraints: contradictions must be rejected, DynamicVal ignores refinement, type and marks are preserved, and after every accepted call the reported range (nullness, bounds with inclusiveness, prefix, length) and the membership of every probe value equal what the model implies (so refinement never widens and never over-narrows, and a collapse to a known value admits exactly what the refinement admitted). All (prefix, continuation) pairs over a 16-symbol hazard alphabet: the safe prefix is an NFC byte prefix of NFC(prefix+continuation).",
+  "trusted: the analytic model (reals with infinities, byte prefixes, naturals); probes are finite; StringPrefix modelled through SafeKnownPrefix which part (b) decides", "§3 C05")
 NOT_YET = {}
 props = [json.loads(l) for l in open('/verif/properties.jsonl')]
 checks = []
